@@ -423,21 +423,26 @@ def merge_small_dims(ctx):
   ev = evaluator(m, decide=Decider(extra=lambda c: False if (c.op == 'bool' and 'shape_to_merge' in show(c)) else None))
   r = ev.run(fi)
   sc = ev.last_scope
-  prod = sc.vars.get('product')
   ok = False
-  why = show(prod, maxdepth=6)[:200] if prod is not None else 'no `product`'
-  if prod is not None:
-    for x in walk(prod):
+  allv = [x for v_ in sc.vars.values() for x in walk(v_)] + list(walk(r))
+  why = 'no guarded running product found'
+  if True:
+    for x in allv:
       if x.op == 'ite' and x.args[0].op == 'cmp':
-        o, a, b = x.args[0].args
-        if o == '<=' and b.op == 'sym' and b.args[-1] == 'max_dim' and a.op == 'bin' and a.args[0] == '*':
-          merged = x.args[1]
+        oc = cmp_oriented(x.args[0], lambda t: t.op == 'sym' and t.args[-1] == 'max_dim')
+        if oc is None:
+          continue
+        o, a, b = oc
+        if o in ('<=', '>') and a.op == 'bin' and a.args[0] == '*':
+          merged = x.args[1] if o == '<=' else x.args[2]
           if merged is a or (merged.op == 'bin' and merged.args[0] == '*' and {merged.args[1], merged.args[2]} == {a.args[1], a.args[2]}):
             ok = True
   ctx.ob('C06.S6', fi.short, 'merge only under product*d <= max_dim', ok,
          f'dimensions may be merged only when the merged size stays within max_dim; got `{why}`', ctx.loc(fi),
          sample='if product * d <= max_dim: product *= d')
-  res = sc.vars.get('resulting_shape')
+  res = r
+  while res.op == 'ite':        # the all-ones special case returns [1]
+    res = res.args[2] if any(e.op == 'star' for e in walk(res.args[2])) else res.args[1]
   oka = res is not None and any(e.op == 'star' for e in walk(res))
   ctx.ob('C06.S6', fi.short, 'every closed group is emitted', oka,
          'each completed group (and the last one) must be appended to the result', ctx.loc(fi), sample='resulting_shape.append(product)')
